@@ -59,6 +59,7 @@ func runGenEngines(c *Check, o genOpts) map[*ssa.Function]bool {
 		runDeref(c, "UNCHECKED-LOOKUP", o.entries, res, nil)
 	}
 	c.Counts["copied_element_updates"] = lostUpdates(c, "LOST-UPDATE", in)
+	c.Counts["memo_tables"] = memoKeys(c, "MEMO-KEY", in)
 	if o.order {
 		e := newOrderEngine(p)
 		runOrder(c, "MAP-ORDER", e, func(f *ssa.Function) bool { return in[f] })
@@ -513,4 +514,181 @@ func lostUpdates(c *Check, rule string, in map[*ssa.Function]bool) int {
 		})
 	}
 	return n
+}
+
+// memoKeys: a memo table answers from the table when the key was seen before.
+// That is only right when the key carries everything the remembered value was
+// computed from. For every function that returns a looked-up map element on
+// the hit path and files a computed value under the same key on the miss path,
+// the parameters the stored value depends on must all be among those the key
+// depends on; otherwise a later call with the same key and another context gets
+// the first caller's answer.
+func memoKeys(c *Check, rule string, in map[*ssa.Function]bool) int {
+	p := c.P
+	var list []*ssa.Function
+	for f := range in {
+		list = append(list, f)
+	}
+	sort.Slice(list, func(i, j int) bool { return fnName(list[i]) < fnName(list[j]) })
+	n := 0
+	for _, f := range list {
+		if p.isGeneratedFile(p.fnFile(f)) || strings.HasSuffix(p.fnFile(f), "_test.go") {
+			continue
+		}
+		var lookups []*ssa.Lookup
+		var updates []*ssa.MapUpdate
+		eachInstr(f, func(_ *ssa.BasicBlock, i ssa.Instruction) {
+			switch x := i.(type) {
+			case *ssa.Lookup:
+				if _, isMap := x.X.Type().Underlying().(*types.Map); isMap && x.CommaOk {
+					lookups = append(lookups, x)
+				}
+			case *ssa.MapUpdate:
+				updates = append(updates, x)
+			}
+		})
+		for _, lk := range lookups {
+			// hit path returns the element
+			returned := false
+			if lk.Referrers() != nil {
+				for _, r := range *lk.Referrers() {
+					ex, ok := r.(*ssa.Extract)
+					if !ok || ex.Index != 0 || ex.Referrers() == nil {
+						continue
+					}
+					for _, r2 := range *ex.Referrers() {
+						switch y := r2.(type) {
+						case *ssa.Return:
+							returned = true
+						case *ssa.Store: // copied into the named result / a local then returned
+							if _, isAl := y.Addr.(*ssa.Alloc); isAl {
+								returned = true
+							}
+						}
+					}
+				}
+			}
+			if !returned {
+				continue
+			}
+			for _, mu := range updates {
+				if exprKey(mu.Map, 0) != exprKey(lk.X, 0) || exprKey(mu.Key, 0) != exprKey(lk.Index, 0) {
+					continue
+				}
+				n++
+				key := fmt.Sprintf("%s|memo key carries what the entry depends on", fnName(f))
+				dk := paramDeps(mu.Key)
+				dm := paramDeps(mu.Map)
+				var missing []string
+				for prm := range paramDeps(mu.Value) {
+					if !dk[prm] && !dm[prm] {
+						missing = append(missing, prm.Name())
+					}
+				}
+				sort.Strings(missing)
+				c.Cond(len(missing) == 0, rule, key, p.pos(mu.Pos()),
+					"every parameter the remembered value is computed from also determines its key",
+					fmt.Sprintf("the value remembered here is computed from parameter(s) %s, which the key does not depend on: a later call with the same key and a different %s is answered with the first caller's value", strings.Join(missing, ", "), strings.Join(missing, "/")))
+			}
+		}
+	}
+	return n
+}
+
+// paramDeps: the parameters (and captured variables) v depends on by data flow,
+// through loads, selections, arithmetic, look-ups, calls (arguments) and the
+// fields of local struct variables.
+func paramDeps(v ssa.Value) map[*ssa.Parameter]bool {
+	out := map[*ssa.Parameter]bool{}
+	seen := map[ssa.Value]bool{}
+	var rec func(v ssa.Value, d int)
+	rec = func(v ssa.Value, d int) {
+		if v == nil || seen[v] || d > 60 {
+			return
+		}
+		seen[v] = true
+		switch x := v.(type) {
+		case *ssa.Parameter:
+			out[x] = true
+		case *ssa.Call:
+			for _, a := range x.Call.Args {
+				rec(a, d+1)
+			}
+			if _, isFn := x.Call.Value.(*ssa.Function); !isFn {
+				if _, isB := x.Call.Value.(*ssa.Builtin); !isB {
+					rec(x.Call.Value, d+1)
+				}
+			}
+		case *ssa.Phi:
+			for _, e := range x.Edges {
+				rec(e, d+1)
+			}
+		case *ssa.Extract:
+			rec(x.Tuple, d+1)
+		case *ssa.UnOp:
+			rec(x.X, d+1)
+		case *ssa.BinOp:
+			rec(x.X, d+1)
+			rec(x.Y, d+1)
+		case *ssa.Lookup:
+			rec(x.X, d+1)
+			rec(x.Index, d+1)
+		case *ssa.Index:
+			rec(x.X, d+1)
+			rec(x.Index, d+1)
+		case *ssa.IndexAddr:
+			rec(x.X, d+1)
+			rec(x.Index, d+1)
+		case *ssa.FieldAddr:
+			rec(x.X, d+1)
+		case *ssa.Field:
+			rec(x.X, d+1)
+		case *ssa.Slice:
+			rec(x.X, d+1)
+		case *ssa.Convert:
+			rec(x.X, d+1)
+		case *ssa.ChangeType:
+			rec(x.X, d+1)
+		case *ssa.MakeInterface:
+			rec(x.X, d+1)
+		case *ssa.ChangeInterface:
+			rec(x.X, d+1)
+		case *ssa.TypeAssert:
+			rec(x.X, d+1)
+		case *ssa.MakeClosure:
+			for _, b := range x.Bindings {
+				rec(b, d+1)
+			}
+		case *ssa.Alloc:
+			if x.Referrers() == nil {
+				return
+			}
+			for _, r := range *x.Referrers() {
+				switch y := r.(type) {
+				case *ssa.Store:
+					if y.Addr == ssa.Value(x) {
+						rec(y.Val, d+1)
+					}
+				case *ssa.FieldAddr:
+					if y.Referrers() != nil {
+						for _, r2 := range *y.Referrers() {
+							if st, ok := r2.(*ssa.Store); ok && st.Addr == ssa.Value(y) {
+								rec(st.Val, d+1)
+							}
+						}
+					}
+				case *ssa.IndexAddr:
+					if y.Referrers() != nil {
+						for _, r2 := range *y.Referrers() {
+							if st, ok := r2.(*ssa.Store); ok && st.Addr == ssa.Value(y) {
+								rec(st.Val, d+1)
+							}
+						}
+					}
+				}
+			}
+		}
+	}
+	rec(v, 0)
+	return out
 }
